@@ -74,8 +74,8 @@ impl DataItem for DateItem {
                 match self.get_month_from_duration(duration) {
                     0 => (),
                     n => {
-                        let years_diff = (date.month() + n as u32) / 12;
-                        let month = (date.month() + n as u32) % 12;
+                        let years_diff = (date.month() - 1 + n as u32) / 12;
+                        let month = (date.month() - 1 + n as u32) % 12 + 1;
                         date     = NaiveDate::from_ymd(date.year() + years_diff as i32, month as u32, date.day());
                         duration = Duration::seconds(duration.num_seconds() - (MONTH * n))
                     }
